@@ -458,6 +458,8 @@ func classifyAuto(sc scenario, name, value string, described map[string][]string
 	return false
 }
 
+var cookieAlteredReported int
+
 func runReqCell(r *hk.Run, o *origin.Origin, sc scenario) {
 	pn := fmt.Sprintf("h%d", sc.Proto)
 	b := build(sc, o)
@@ -591,6 +593,8 @@ func runReqCell(r *hk.Run, o *origin.Origin, sc scenario) {
 		if strings.Join(gotCk, "|") != strings.Join(expCk, "|") {
 			if cookiesOK {
 				fail("cookies-altered", "cookies differ from the described ones", gotCk, expCk)
+			} else if cookieAlteredReported++; cookieAlteredReported > 40 {
+				r.Count("req.cookie-value-altered.not-reported-again") // keep the 200-failure budget for other failures
 			} else {
 				fail("cookie-value-altered:invalid-octet", "a cookie value holding a byte outside the cookie-octet set was neither refused nor sent as given", gotCk, expCk)
 			}
